@@ -106,3 +106,9 @@ reg("C12",
     "The std-derived twin is compiled alone first; where it compiles, the program deriving the listed traits with derive_ex (the remaining ones with the standard derive on the same type) must compile too and Clone / clone_from, Debug (14 specs), Default, ==, !=, partial_cmp, <, cmp must agree with the twin on all values / ordered pairs, Hash feeds must be equal whenever == holds, Copy must be implemented. Exhaustive within the bound.",
     "Bound: quick Sh(2 variants, 2 fields) x 12 lists + 6 representative shapes x one option at a time (8 generics options, raw identifiers incl. the type parameter, repr(C), non_exhaustive); thorough Sh(3,3) and 9 shapes x two options. Lists are supertrait-closed because a derive_ex impl (field-type bounds) cannot sit on a std-derived supertrait impl (parameter bounds) - see DESIGN.md.",
     "DESIGN.md 5/C12")
+
+reg("C03",
+    "bounded exhaustive enumeration of trait forms x containers x 1..3 fields x field types over the parameters x used/unused mechanisms x declared where-clause x entry points; each case compiled with the real proc-macro and executed: the applicability of the derived impl over EVERY instantiation of the parameters by probe types is compared with a twin carrying the reference where-clause",
+    "For every terminal state the derived impl and a hand-written marker impl `where W_ref` on a structurally identical twin are probed (impls!) on every instantiation of the parameters by probe types implementing chosen subsets of the traits / operator reference forms; rustc's trait solver evaluates both, so equivalent but differently written bounds raise no alarm. A twin that compiles while the derive_ex program does not is a violation (a needed bound is missing).",
+    "Bound: quick 14 trait forms (9 plain traits, Add / Shl in 4 forms, SubAssign in 2, Neg / Not in 2), 12 field types, <=2 fields (27k cases, ~25 s); thorough all 31 trait forms, 16 field types, <=3 fields. Probe domains: {Yes, No}, {Yes, No, Own(owned operator forms only)}, {Yes, AY, AN} for T: Tr; U in {Yes, No}; N = 2; 'a = 'static.",
+    "DESIGN.md 5/C03")
